@@ -84,6 +84,9 @@ def main():
             mid, line, desc = l.split('\t')
             if int(mid) % STRIDE == OFFSET % STRIDE:
                 jobs.append((f, ids, int(mid), int(line), desc))
+    if os.environ.get('MUT_SHUFFLE'):
+        import random
+        random.Random(int(os.environ['MUT_SHUFFLE'])).shuffle(jobs)  # a deadline then cuts every file alike
     print(len(jobs), 'mutants', flush=True)
     chunks = [(i, jobs[i::nw]) for i in range(nw)]
     with mp.Pool(nw) as pool:
